@@ -21,10 +21,13 @@ CONSTANTS R,            \* runs 1..R exist at the start: 1..R-1 completed (compa
           Find,         \* TRUE: the query is the lookup of run R by its request id (FindByRequestID): same listing
                         \* order, every file is read until one holds a status of that run
           Relist, MaxRelist,
-          WithUpdate    \* TRUE: a manual status update of run R may be issued once the run's process reports a final status
+          WithUpdate,   \* TRUE: a manual status update of run R may be issued once the run's process reports a final status
                         \* (the API refuses it while the status is "running"; while Close compacts the file the socket
                         \* already answers with the final status).  The update is not coordinated with the compaction:
-                        \* TLC finds the acknowledged update that is lost (open finding F-06h, MC_C06_conc_update.cfg)
+                        \* TLC finds the acknowledged update that is lost (F-06h, MC_C06_conc_update_nolock.cfg) unless
+          Lock          \* TRUE: the compaction holds an advisory lock on the original from before it reads it until it has
+                        \* removed it, and the update takes the same lock on the file it found, makes sure that name still
+                        \* leads to the file it locked, and looks the run up again otherwise (the code after the fix)
 
 Runs == 1..(R + 1)
 Kinds == {"comp", "orig"}
@@ -33,10 +36,11 @@ NoFile == [exists |-> FALSE, st |-> 0, upd |-> FALSE]
 
 VARIABLES disk, rpc,            \* recorder: "open" | "c_write" | "c_unlink" | "closed" | "open2" | "wrote2"
           qpc, qfiles, qacc, relists, valid, answer,
+          lk,                          \* holder of the lock on <R>.dat: "none" | "rec" | "upd"
           upc, ufile, ugone, readUpd   \* the manual update: "idle" | "found" | "opened" | "acked"; the file it chose; that
                                        \* file was unlinked while the update held it open; what the compaction had read
-vars == <<disk, rpc, qpc, qfiles, qacc, relists, valid, answer, upc, ufile, ugone, readUpd>>
-uvars == <<upc, ufile, ugone, readUpd>>
+vars == <<disk, rpc, qpc, qfiles, qacc, relists, valid, answer, upc, ufile, ugone, readUpd, lk>>
+uvars == <<upc, ufile, ugone, readUpd, lk>>
 
 \* ---- the abstract store: runs that hold a status, newest first
 HasStatus(d, r) == \E k \in Kinds : d[<<r, k>>].exists /\ d[<<r, k>>].st # 0
@@ -57,19 +61,21 @@ Init == /\ disk = [f \in Runs \X Kinds |->
                      IF f[1] < R /\ f[2] = "comp" THEN [exists |-> TRUE, st |-> f[1], upd |-> FALSE]
                      ELSE IF f[1] = R /\ f[2] = "orig" THEN [exists |-> TRUE, st |-> R, upd |-> FALSE] ELSE NoFile]
         /\ rpc = "open" /\ qpc = "idle" /\ qfiles = <<>> /\ qacc = <<>> /\ relists = 0 /\ valid = {} /\ answer = <<>>
-        /\ upc = "idle" /\ ufile = <<R, "orig">> /\ ugone = FALSE /\ readUpd = FALSE
+        /\ upc = "idle" /\ ufile = <<R, "orig">> /\ ugone = FALSE /\ readUpd = FALSE /\ lk = "none"
 
 \* ---- the recorder
 Rec(d2, pc2) == /\ disk' = d2 /\ rpc' = pc2
                 /\ valid' = IF qpc = "iter" THEN valid \cup {Abstract(d2)} ELSE valid
                 /\ UNCHANGED <<qpc, qfiles, qacc, relists, answer>>
 \* Compact reads the original (ParseFile) and creates the copy; it writes what it read; it removes the original
-CCreate == /\ rpc = "open" /\ Rec([disk EXCEPT ![<<R, "comp">>] = [exists |-> TRUE, st |-> 0, upd |-> FALSE]], "c_write")
-           /\ readUpd' = disk[<<R, "orig">>].upd /\ UNCHANGED <<upc, ufile, ugone>>
+CCreate == /\ rpc = "open" /\ (Lock => lk = "none")
+           /\ Rec([disk EXCEPT ![<<R, "comp">>] = [exists |-> TRUE, st |-> 0, upd |-> FALSE]], "c_write")
+           /\ readUpd' = disk[<<R, "orig">>].upd /\ lk' = (IF Lock THEN "rec" ELSE lk) /\ UNCHANGED <<upc, ufile, ugone>>
 CWrite  == /\ rpc = "c_write" /\ Rec([disk EXCEPT ![<<R, "comp">>].st = R, ![<<R, "comp">>].upd = readUpd], "c_unlink")
            /\ UNCHANGED uvars
 CUnlink == /\ rpc = "c_unlink" /\ Rec([disk EXCEPT ![<<R, "orig">>] = NoFile], "closed")
-           /\ ugone' = (ugone \/ (upc = "opened" /\ ufile = <<R, "orig">>)) /\ UNCHANGED <<upc, ufile, readUpd>>
+           /\ ugone' = (ugone \/ (upc = "opened" /\ ufile = <<R, "orig">>)) /\ lk' = (IF Lock THEN "none" ELSE lk)
+           /\ UNCHANGED <<upc, ufile, readUpd>>
 Open2   == rpc = "closed"   /\ Rec([disk EXCEPT ![<<R + 1, "orig">>] = [exists |-> TRUE, st |-> 0, upd |-> FALSE]], "open2") /\ UNCHANGED uvars
 Write2  == rpc = "open2"    /\ Rec([disk EXCEPT ![<<R + 1, "orig">>].st = R + 1], "wrote2") /\ UNCHANGED uvars
 
@@ -77,14 +83,22 @@ Write2  == rpc = "open2"    /\ Rec([disk EXCEPT ![<<R + 1, "orig">>].st = R + 1]
 FoundFile == IF disk[<<R, "comp">>].exists /\ disk[<<R, "comp">>].st # 0 THEN <<R, "comp">> ELSE <<R, "orig">>
 UFind  == /\ WithUpdate /\ upc = "idle" /\ rpc # "open" /\ HasStatus(disk, R)
           /\ upc' = "found" /\ ufile' = FoundFile
-          /\ UNCHANGED <<disk, rpc, qpc, qfiles, qacc, relists, valid, answer, ugone, readUpd>>
-\* OpenOrCreateFile: a file that is gone by now is created anew
-UOpen  == /\ upc = "found" /\ upc' = "opened"
-          /\ disk' = IF disk[ufile].exists THEN disk ELSE [disk EXCEPT ![ufile] = [exists |-> TRUE, st |-> 0, upd |-> FALSE]]
+          /\ UNCHANGED <<disk, rpc, qpc, qfiles, qacc, relists, valid, answer, ugone, readUpd, lk>>
+\* without the lock: OpenOrCreateFile - a file that is gone by now is created anew.  With it: wait for the lock on the file
+\* that was found (only <R>.dat is ever locked by someone else); if the name is gone by then, start over
+UOpen  == /\ upc = "found"
+          /\ IF ~Lock
+               THEN /\ upc' = "opened" /\ UNCHANGED lk
+                    /\ disk' = IF disk[ufile].exists THEN disk ELSE [disk EXCEPT ![ufile] = [exists |-> TRUE, st |-> 0, upd |-> FALSE]]
+               ELSE /\ (ufile = <<R, "orig">> => lk = "none")
+                    /\ IF disk[ufile].exists THEN upc' = "opened" /\ lk' = (IF ufile = <<R, "orig">> THEN "upd" ELSE lk)
+                                              ELSE upc' = "idle" /\ UNCHANGED lk
+                    /\ UNCHANGED disk
           /\ UNCHANGED <<rpc, qpc, qfiles, qacc, relists, valid, answer, ufile, ugone, readUpd>>
 \* the write goes to the inode that was opened: if the name has been unlinked since, nobody will read it
 UWrite == /\ upc = "opened" /\ upc' = "acked"
           /\ disk' = IF ugone THEN disk ELSE [disk EXCEPT ![ufile].st = R, ![ufile].upd = TRUE]
+          /\ lk' = (IF lk = "upd" THEN "none" ELSE lk)
           /\ UNCHANGED <<rpc, qpc, qfiles, qacc, relists, valid, answer, ufile, ugone, readUpd>>
 
 \* ---- the query
@@ -111,6 +125,6 @@ C06_QueryLinearizable == qpc = "done" => answer \in valid
 \* in particular the run that is being closed is never missing from it
 C06_ClosingRunIsShown == qpc = "done" => \E i \in DOMAIN answer : answer[i] >= R
 \* (for a lookup the two say the same: the run is found)
-\* an acknowledged manual update is what the lookup returns once the run is closed (does NOT hold: F-06h)
+\* an acknowledged manual update is what the lookup returns once the run is closed (needs Lock: F-06h)
 C06_UpdateIsKept == upc = "acked" /\ rpc \notin {"open", "c_write", "c_unlink"} => disk[FoundFile].upd
 =============================================================================
